@@ -11,7 +11,7 @@ from ..brokermachine import close
 from ..core import product
 from ..env import scratch_dir
 
-MARKET_DAYS = rm.bdays(datetime.date(2020, 2, 20), datetime.date(2020, 6, 12))
+MARKET_DAYS = rm.bdays(datetime.date(2020, 2, 20), datetime.date(2021, 4, 16))
 WEEK = [datetime.date(2020, 2, 24) + datetime.timedelta(days=i) for i in range(7)]   # Mon .. Sun
 SCHEDULES = [('weekly', w) for w in ('MON', 'TUE', 'WED', 'THU', 'FRI')] + [('daily', None), ('end_of_month', None),
                                                                           ('buy_and_hold', None)]
@@ -92,6 +92,15 @@ def session_cfgs(item):
                'rebalance': kind, 'weekday': wd, 'long_only': item['long_only'], 'fee': fee, 'cash': item['cashes'][0]}
         cfg['buffer' if item['long_only'] else 'leverage'] = item['params'][0]
         yield cfg
+    # thirteen months (the same calendar month in two years), end of month
+    end_date = end_for(WEEK[0], 285)
+    cfg = {'start': '%sT00:00:00+00:00' % WEEK[0].isoformat(), 'end': '%sT23:59:00+00:00' % end_date.isoformat(),
+           'burn_in': None, 'assets': assets, 'universe': {'kind': 'static'},
+           'alpha': {'kind': 'fixed', 'weights': dict(zip(assets, item['weights']))},
+           'rebalance': 'end_of_month', 'weekday': None, 'long_only': item['long_only'], 'fee': item['fees'][-1],
+           'cash': item['cashes'][0]}
+    cfg['buffer' if item['long_only'] else 'leverage'] = item['params'][0]
+    yield cfg
 
 
 def market_of(item):
